@@ -3,7 +3,8 @@ from __future__ import annotations
 
 import ast as _ast
 
-from ..common import all_conds, conds_at, mro_methods, nshow, outer_field, paths
+from ..anchors import SIMPLE as SIMPLE_NAMES
+from ..common import OPAQUE, all_conds, conds_at, mro_methods, nshow, outer_field, paths
 from ..expr import C, SELF, canon, show, strip_epochs, walk
 from ..model import AnalysisError
 from .C14 import ARRAYS as QARRAYS, GEOMETRY, geometry_writers, quotient_counter_rules
@@ -93,6 +94,9 @@ class Ranger:
             return IN
         if k == "bin" and e[1] in ("//", ">>") and e[2][0] == "p" and "hash" in e[2][1]:
             return IN  # quotient of a 32-bit hash (lemma r = 32 - q, size = 1 << q, checked separately)
+        if k == "bin" and e[1] in ("//", ">>") and e[2][0] == "it" and any(
+                n[0] == "ret" and n[1].endswith((".hashes", ".get_hashes")) and n[1].split(".")[-2] == CTX for n in walk(e[2][2])):
+            return IN  # ... also of a hash a quotient filter hands back: everything stored came in through add_alt (32-bit domain)
         if k == "it":
             return IN if e[2] == ("call", ("g", "range"), (SIZE,), ()) else UNK
         if k == "p":
@@ -294,6 +298,8 @@ def check(prog, rep, tier):
     R = Ranger(prog)
     K = prog.cls(CTX)
     for f in list(K.methods.values()):
+        if f.src_name.startswith("_") and not f.src_name.endswith("__") and f.qualname not in OPAQUE and f.qualname not in SIMPLE_NAMES:
+            continue  # a helper a refactoring introduced: it is looked through in its callers, where its arguments are known
         ps = paths(prog, CTX, f, max_states=20000)
         rep.analysed(f, CTX, len(ps))
         seen_use, seen_call = set(), set()
@@ -350,12 +356,45 @@ def check(prog, rep, tier):
             rep.bad("C04.no-duplicate", f"{CTX}.add_alt", "_add without the containment test", "an element is added without checking that it is not already stored: the stored hashes can contain duplicates", adds[0].where())
             okd = False
     callers = set()
+    _, helpers_ = geometry_writers(prog)
     for f in K.methods.values():
-        for p in paths(prog, CTX, f, max_states=20000):
-            if any(e.kind == "call" and e.target is not None and e.target.src_name == "_add" for e in p.events):
-                callers.add(f.src_name)
+        if f.src_name == "add_alt":
+            continue
+        private_new = tuple(sorted(m.qualname for m in K.methods.values() if m.src_name.startswith("_") and not m.src_name.endswith("__")
+                                   and m.src_name not in ("_add", "_contained_at_loc", "_remove_element", "_shift_insert", "_get_start_index")
+                                   and m.qualname not in OPAQUE))
+        if f.qualname in private_new:
+            continue  # a helper introduced by a refactoring: judged inside its callers
+        for p in paths(prog, CTX, f, max_states=20000, force_inline=tuple(helpers_) + private_new):
+            adds_ = [e for e in p.events if e.kind == "call" and e.target is not None and e.target.src_name == "_add" and not e.d.get("inlined")]
+            for a_ in adds_:
+                i_ = p.events.index(a_)
+                # (a) behind the containment test for the same (quotient, remainder)
+                args_ = tuple(strip_epochs(x) for x in a_.args)
+                guarded = any(strip_epochs(c.atom)[0] == "cmp" and strip_epochs(c.atom)[2][0] == "ret" and strip_epochs(c.atom)[2][1].endswith("._contained_at_loc")
+                              and strip_epochs(c.atom)[3] == ABSENT and strip_epochs(c.atom)[1] in ("==", "!=", "is", "isnot")
+                              and ((strip_epochs(c.atom)[1] in ("==", "is")) == c.truth) and strip_epochs(c.atom)[2][3][1:] == args_ for c in p.conds[:a_.ncond])
+                # (b) refill of an empty table with the hashes of ONE filter (pairwise distinct by the property itself): the table was
+                # re-allocated on this path, or found empty (counter == 0) before the loop, and the loop walks hashes() / get_hashes()
+                fresh = any(e.kind == "setfield" and e.base == SELF and e.name == "_filter" for e in p.events[:i_])
+                hvl = {}
+                for e_ in p.events:
+                    if e_.kind == "loophavoc" and e_.d.get("lid") in a_.loops:
+                        hvl.update(e_.d.get("fields") or {})
+                lim = hvl.get("_elements_added", hvl.get("*"))
+
+                def before_loop(c):
+                    """the counter in this condition was read before the loop started (the flag was computed once, up front)"""
+                    a0 = c.atom
+                    return not c.loops or (a0[0] == "cmp" and a0[2][0] == "f" and len(a0[2]) == 4 and lim is not None and a0[2][3] < lim)
+                empty = any(c.truth and before_loop(c) and strip_epochs(c.atom) in (("cmp", "==", ("f", SELF, "_elements_added", 0), C(0)),) for c in p.conds[:a_.ncond])
+                src = [n for x in args_ for n in walk(x) if n[0] == "it"]
+                one_filter = bool(a_.loops) and bool(src) and all(any(m[0] == "ret" and m[1].endswith((".hashes", ".get_hashes")) for m in walk(n[2])) for n in src) \
+                    and len({n[2] for n in src}) == 1
+                if not guarded and not ((fresh or empty) and one_filter):
+                    callers.add(f.src_name)
     if callers - {"add_alt"}:
-        rep.bad("C04.no-duplicate", f"{CTX}.{sorted(callers - {'add_alt'})[0]}", "_add called directly", f"_add is also called from {sorted(callers - {'add_alt'})}, bypassing the containment test", K.module.relpath + ":1")
+        rep.bad("C04.no-duplicate", f"{CTX}.{sorted(callers - {'add_alt'})[0]}", "_add called directly", f"_add is also reached from {sorted(callers - {'add_alt'})} without the containment test (and not as the refill of an empty table with one filter's hashes)", K.module.relpath + ":1")
         okd = False
     if okd and seen:
         rep.ok("C04.no-duplicate", f"{CTX}.add_alt: _add only under _contained_at_loc(q, r) == -1")
@@ -459,7 +498,15 @@ def check(prog, rep, tier):
     rz = prog.method(CTX, "resize")
     okr, seen = True, False
     _, helpers = geometry_writers(prog)
-    for p in paths(prog, CTX, rz, force_inline=helpers):
+    # helpers a refactoring introduced (not part of the pinned tree) are looked through: the re-insertion may live in one of them
+    new_private = tuple(sorted(m.qualname for m in K.methods.values() if m.src_name.startswith("_") and not m.src_name.endswith("__") and m.qualname not in OPAQUE
+                               and m.src_name not in ("_add", "_contained_at_loc", "_remove_element", "_shift_insert", "_get_start_index")))
+
+    def hash_of(a):
+        """the stored hash an inserted (quotient, remainder) pair was cut from: the loop element h in (h >> r, h & mask) / divmod(h, 1 << r)"""
+        its = {n for n in walk(a) if n[0] == "it"}
+        return next(iter(its)) if len(its) == 1 else a
+    for p in paths(prog, CTX, rz, force_inline=tuple(helpers) + new_private):
         if p.exit[0] != "return":
             continue
         gh = [i for i, e in enumerate(p.events) if e.kind == "call" and e.target is not None and e.target.src_name in ("hashes", "get_hashes") and e.recv == SELF and not e.inlined]
@@ -468,7 +515,7 @@ def check(prog, rep, tier):
             continue  # nothing replaced on this path
         donor = strip_epochs(p.events[spi[-1]].value)
         donor = donor[1] if donor[0] == "f" and donor[2] == "_filter" and donor[1] != SELF else None
-        re_ = [e for e in p.events if e.kind == "call" and e.target is not None and e.target.src_name == "add_alt" and e.loops and
+        re_ = [e for e in p.events if e.kind == "call" and e.target is not None and e.target.src_name in ("add_alt", "_add") and e.loops and not e.d.get("inlined") and
                ((e.recv == SELF and donor is None) or (donor is not None and strip_epochs(e.recv) == donor))]
         if not gh or gh[0] > spi[0]:
             rep.bad("C04.reinsert-all", f"{CTX}.resize", "hashes not captured first", "resize does not read the stored hashes before replacing the arrays", rz.where())
@@ -476,7 +523,21 @@ def check(prog, rep, tier):
             break
         if re_:
             seen = True
-            a = strip_epochs(re_[0].args[0])
+            # the split of a re-inserted hash uses the geometry as it is NOW: a width or mask read before the loop (a hoisted local) is
+            # stale as soon as something in the loop body can change the geometry (a nested expansion during the refill)
+            hv_ = {}
+            for e_ in p.events:
+                if e_.kind == "loophavoc" and e_.d.get("lid") in re_[0].loops:
+                    hv_.update(e_.d.get("fields") or {})
+            stale_ = [n for x in re_[0].args for n in walk(x) if n[0] == "f" and n[1] == SELF and len(n) == 4 and
+                      ((n[2] in hv_ and n[3] < hv_[n[2]]) or ("*" in hv_ and n[3] < hv_["*"])) and n[2] in GEOMETRY]
+            if stale_:
+                rep.bad("C04.reinsert-all", f"{CTX}.resize", f"stale {stale_[0][2]} in the refill loop",
+                        f"the refill loop splits every hash with {stale_[0][2]} as read BEFORE the loop, while the loop body can change it (a nested expansion "
+                        "when the refill itself reaches the load limit): hashes inserted after that are cut at the wrong bit", re_[0].where())
+                okr = False
+                break
+            a = hash_of(strip_epochs(re_[0].args[0]))
             captured = {strip_epochs(p.events[i].result) for i in gh}
             dom = strip_epochs(a[2]) if a[0] == "it" else None
             while dom is not None and dom[0] == "call" and dom[1] in (("g", "list"), ("g", "tuple"), ("g", "iter")) and len(dom[2]) == 1:
@@ -492,11 +553,11 @@ def check(prog, rep, tier):
         rep.bad("C04.reinsert-all", f"{CTX}.resize", "nothing re-inserted", "resize replaces the arrays and never re-inserts the stored hashes", rz.where())
     mg = prog.method(CTX, "merge")
     okm = False
-    for p in paths(prog, CTX, mg):
+    for p in paths(prog, CTX, mg, force_inline=new_private):
         for e in p.events:
-            if e.kind == "call" and e.target is not None and e.target.src_name == "add_alt" and e.loops and e.args:
-                a = strip_epochs(e.args[0])
-                okm = a[0] == "it" and a[2][0] == "ret" and a[2][1].endswith(".hashes") and a[2][3] == (("p", "second"),)
+            if e.kind == "call" and e.target is not None and e.target.src_name in ("add_alt", "_add") and e.loops and e.args and not e.d.get("inlined"):
+                a = hash_of(strip_epochs(e.args[0]))
+                okm = okm or (a[0] == "it" and a[2][0] == "ret" and a[2][1].endswith(".hashes") and a[2][3] == (("p", "second"),))
     if okm:
         rep.ok("C04.reinsert-all", f"{CTX}.merge: every hash of second.hashes() is added")
     else:
@@ -648,14 +709,18 @@ def scan_start_rule(prog, rep):
                         return name, v[2][1]
         return None
 
+    def sentinel(d):
+        """a default that is no slot: None, or a negative number"""
+        return d[0] == "c" and (d[1] is None or (isinstance(d[1], int) and not isinstance(d[1], bool) and d[1] < 0))
+
     def searched(p, name):
         """the path shows a complete unsuccessful search for predicate `name` over range(size)"""
         for c in p.conds:
             a = strip_epochs(c.atom)
-            if a[0] == "cmp" and a[1] in ("is", "isnot") and a[3] == C(None) and ((a[1] == "is") == c.truth):
+            if a[0] == "cmp" and a[1] in ("is", "isnot", "==", "!=") and sentinel(a[3]) and ((a[1] in ("is", "==")) == c.truth):
                 nf = next_form(a[2])
-                if nf is not None and nf[0] == name and nf[1] == C(None):
-                    return True  # next(<search>, None) is None: nothing satisfies the predicate
+                if nf is not None and nf[0] == name and nf[1] == a[3]:
+                    return True  # next(<search>, D) is D (D = None or a negative number, no slot): nothing satisfies the predicate
             if a[0] == "loop0" and strip_epochs(a[2]) == full and c.truth:
                 return True  # range(size) is empty: every search over it fails
             if c.loops and not c.truth:
@@ -673,10 +738,10 @@ def scan_start_rule(prog, rep):
                     return True
             return False
         nf = next_form(s_)
-        if nf is not None and nf[1] == C(None):
-            # first slot satisfying the predicate, known to exist on this path (the None default was excluded)
-            found = any(strip_epochs(c.atom)[0] == "cmp" and strip_epochs(c.atom)[1] in ("is", "isnot") and strip_epochs(c.atom)[2] == s_
-                        and strip_epochs(c.atom)[3] == C(None) and ((strip_epochs(c.atom)[1] == "isnot") == c.truth) for c in p.conds)
+        if nf is not None and sentinel(nf[1]):
+            # first slot satisfying the predicate, known to exist on this path (the sentinel default was excluded)
+            found = any(strip_epochs(c.atom)[0] == "cmp" and strip_epochs(c.atom)[1] in ("is", "isnot", "==", "!=") and strip_epochs(c.atom)[2] == s_
+                        and strip_epochs(c.atom)[3] == nf[1] and ((strip_epochs(c.atom)[1] in ("isnot", "!=")) == c.truth) for c in p.conds)
             if found and (nf[0] == PRED[0] or PRED[0] not in need or searched(p, PRED[0])):
                 return True
         if s_[0] == "call" and s_[1] == ("g", "next") and len(s_[2]) == 2 and s_[2][0][0] == "comp" and len(s_[2][0][3]) == 1:
